@@ -72,6 +72,7 @@ type c09Case struct {
 	ReqSize   int      `json:"req_size"`
 	Filter    string   `json:"filter"` // prepost | cf
 	GapMs     int      `json:"gap_ms"`
+	ObjMax    int      `json:"obj_max"`  // > 0: ObjQueueMax (calls allowed inside doInvoke)
 	EarlyMs   int      `json:"early_ms"` // noread-early: when the peer writes its unsolicited replies
 	Prime     bool     `json:"prime"`    // one call (answered at once) establishes the connection before the callers start
 	Warm      bool     `json:"warm"`     // the adapter proxy exists before the first call (concurrent first callers share it)
@@ -135,6 +136,9 @@ func c09RunScenario(c *c09Case) *c09Obs {
 	comm.Client.ClientWriteTimeout = time.Duration(c.WriteMs) * time.Millisecond
 	comm.Client.ClientReadTimeout = time.Duration(c.ReadMs) * time.Millisecond
 	comm.Client.ClientQueueLen = c.QueueLen
+	if c.ObjMax > 0 {
+		comm.Client.ObjQueueMax = int32(c.ObjMax)
+	}
 	h := &c09Holder{}
 	comm.StringToProxy(fmt.Sprintf("VerifApp.C09Server.C09Obj@tcp -h 127.0.0.1 -p %d -t 60000", peer.port), h)
 	sp, ok := h.s.(*tars.ServantProxy)
@@ -637,8 +641,12 @@ func c09Coq(c *c09Case) string {
 	if c.Predict {
 		pred = "true"
 	}
-	return fmt.Sprintf("mkcase (mkcfg %d %d %d %d) %s [%s] %d %d %d %d %s %s [%s] [%s] (%d, %d, %d)",
-		c09U(c.DialMs), c09U(c.WriteMs), c09U(c.ReadMs), c.QueueLen, conn, strings.Join(acts, "; "),
+	objMax := 100000
+	if c.ObjMax > 0 {
+		objMax = c.ObjMax
+	}
+	return fmt.Sprintf("mkcase (mkcfg %d %d %d %d %d) %s [%s] %d %d %d %d %s %s [%s] [%s] (%d, %d, %d)",
+		c09U(c.DialMs), c09U(c.WriteMs), c09U(c.ReadMs), c.QueueLen, objMax, conn, strings.Join(acts, "; "),
 		c.Callers, c.Calls, c09U(c.eff()), c09U(c.GapMs), coqBool(c.Prime && c.Callers > 1), pred, strings.Join(obs, "; "), strings.Join(evs, "; "),
 		c09NN(o.QueueLen), c09NN(o.InvokeNum), len(o.Pending))
 }
@@ -799,6 +807,12 @@ func c09Gen(tier string, rng *rand.Rand) []c09Case {
 		c = base("reply-at-deadline", "accept", nil)
 		c.Acts = rep(c.TimeoutMs)
 		c.Callers = pick(16, 64)
+		c.Predict = false
+		cs = append(cs, prime(c))
+		// more callers than ObjQueueMax admits: the surplus is turned away at once (how many is a race: monitors only)
+		c = base("obj-queue-max", "accept", []c09Act{{Do: "none"}})
+		c.Callers = pick(8, 16)
+		c.ObjMax = pick(1, 3)
 		c.Predict = false
 		cs = append(cs, prime(c))
 		// concurrent first use without a prepared adapter (racing first callers may each create one: monitors only)
